@@ -13,7 +13,7 @@ pub mod v3 {
     use ruma_common::{
         api::{request, response, Metadata},
         metadata,
-        serde::{Raw, StringEnum},
+        serde::{OrdAsRefStr, PartialOrdAsRefStr, Raw, StringEnum},
         OwnedEventId, OwnedMxcUri, OwnedRoomId, OwnedUserId,
     };
     use ruma_events::{AnyStateEvent, AnyTimelineEvent};
@@ -250,7 +250,7 @@ pub mod v3 {
 
     /// The key within events to use for this grouping.
     #[doc = include_str!(concat!(env!("CARGO_MANIFEST_DIR"), "/src/doc/string_enum.md"))]
-    #[derive(Clone, PartialEq, Eq, PartialOrd, Ord, StringEnum)]
+    #[derive(Clone, PartialEq, Eq, PartialOrdAsRefStr, OrdAsRefStr, StringEnum)]
     #[ruma_enum(rename_all = "snake_case")]
     #[non_exhaustive]
     pub enum GroupingKey {
